@@ -214,16 +214,6 @@ pub fn block_on_cancel<F: Future>(fut: F, max_parks: usize, park: Duration) -> O
     }
 }
 
-/// Polls a pinned future once more; the future stays alive.
-pub fn poll_pinned<F: Future>(fut: std::pin::Pin<&mut F>) -> Option<F::Output> {
-    let waker = Waker::from(Arc::new(ThreadWaker(std::thread::current())));
-    let mut cx = Context::from_waker(&waker);
-    match fut.poll(&mut cx) {
-        Poll::Ready(v) => Some(v),
-        Poll::Pending => None,
-    }
-}
-
 /// Polls `fut` exactly once.
 pub fn poll_once<F: Future>(fut: F) -> Option<F::Output> {
     block_on_cancel(fut, 0, Duration::ZERO)
